@@ -193,7 +193,45 @@ theorem sliceAux_bound : ∀ (xs : List Ix) (ds ss : List Nat) {o : Nat} {ds' ss
         have e3 : lo * s + ((hi - lo) / st * st) * s = (lo + (hi - lo) / st * st) * s := by rw [Nat.add_mul]
         have e4 : (lo + (hi - lo) / st * st) * s ≤ (d - 1) * s := Nat.mul_le_mul_right s (by omega)
         omega
-    · simp at h
+    · split at h
+      · rename_i hc
+        obtain ⟨h1, h2, h3, h4⟩ := hc
+        cases hr : sliceAux xs ds ss with
+        | none => simp [hr] at h
+        | some r =>
+          obtain ⟨o1, ds1, ss1⟩ := r
+          simp only [hr, Option.some.injEq, Prod.mk.injEq] at h
+          obtain ⟨rfl, rfl, rfl⟩ := h
+          have ih := sliceAux_bound xs ds ss hr
+          simp only [ext]
+          have e4 : lo * s ≤ (d - 1) * s := Nat.mul_le_mul_right s (by omega)
+          omega
+      · simp at h
+
+theorem ext_zeros : ∀ (ds ss : List Nat), ext (ds.map (fun _ => 0)) ss = 0
+  | [], _ => by simp [ext]
+  | _ :: _, [] => by simp [ext]
+  | _ :: ds, _ :: ss => by simp [ext, ext_zeros ds ss]
+
+theorem ext_canon_le (ds ss : List Nat) : ext (canonDims ds) ss ≤ ext ds ss := by
+  unfold canonDims
+  split
+  · rw [ext_zeros]; omega
+  · omega
+
+/-- the view the constructor stores (empty selections canonicalised) lies inside the view it was taken from -/
+theorem sliceView_bound (xs : List Ix) (ds ss : List Nat) {o : Nat} {ds' ss' : List Nat}
+    (h : sliceView xs ds ss = some (o, ds', ss')) : o + ext ds' ss' ≤ ext ds ss := by
+  unfold sliceView at h
+  cases hr : sliceAux xs ds ss with
+  | none => simp [hr] at h
+  | some r =>
+    obtain ⟨o1, ds1, ss1⟩ := r
+    simp only [hr, Option.some.injEq, Prod.mk.injEq] at h
+    obtain ⟨rfl, rfl, rfl⟩ := h
+    have := sliceAux_bound xs ds ss hr
+    have := ext_canon_le ds1 ss1
+    omega
 
 /-! ### histories of allocator calls -/
 
